@@ -1245,9 +1245,14 @@ fn execute_match(
                     converted_base,
                 },
         } => {
+            // the buyer is paid in the approver-supplied denomination, which may be of a
+            // different marker type than the ask's own (convertible) denomination
+            let is_converted_base_restricted_marker =
+                is_restricted_marker(&deps.querier, converted_base.denom.clone());
+
             response = add_transfer(
                 response,
-                is_base_restricted_marker.to_owned(),
+                is_converted_base_restricted_marker,
                 execute_size.into(),
                 converted_base.to_owned().denom,
                 bid_order.owner.to_owned(),
